@@ -37,6 +37,9 @@ func loadContracts(repo, verif string) *ContractSet {
 	cs := NewContractSet()
 	specs, _ := filepath.Glob(filepath.Join(verif, "trusted", "*.spec"))
 	sort.Strings(specs)
+	more, _ := filepath.Glob(filepath.Join(verif, "specs", "*.spec"))
+	sort.Strings(more)
+	specs = append(specs, more...)
 	for _, s := range specs {
 		if err := cs.LoadFile(s, ""); err != nil {
 			fatalf("%v", err)
